@@ -91,3 +91,33 @@ def deviations(tier):
     out.append(("kTimeLimit", True, "custom"))
     out.append(("kTimeLimit", False, "custom"))
     return out
+
+
+class ValueNoise:
+    """Environment deviation for the value getters: every variable value the library reads from the solver is shifted by
+    `delta` (|delta| below the integrality / feasibility tolerance 1e-9 the wrapper configures), i.e. an answer HiGHS is
+    allowed to give (48533 may come back as 48532.9999999995). The library reads all values through
+    SolverWrapper.get_all_variable_values (get_values / get_variable_values are built on it)."""
+
+    def __init__(self, delta):
+        self.delta = delta
+        self.reads = 0
+
+    def __enter__(self):
+        import flowpaths.utils.solverwrapper as sw
+        self.sw = sw
+        self._orig = sw.SolverWrapper.get_all_variable_values
+        orig = self._orig
+        me = self
+
+        def get_all_variable_values(wrapper):
+            vals = orig(wrapper)
+            me.reads += 1
+            return [v + me.delta for v in vals]
+
+        sw.SolverWrapper.get_all_variable_values = get_all_variable_values
+        return self
+
+    def __exit__(self, *a):
+        self.sw.SolverWrapper.get_all_variable_values = self._orig
+        return False
